@@ -1,6 +1,7 @@
 (* C15  Server replies are framed and classified per RFC 5321 4.2.  Statements only. *)
-From LV Require Import Base.Bytes Base.Utf8 Base.Res Model.Response Model.ServerInfo Model.Client
-  Proofs.ResponseProofs Proofs.ClientProofs Proofs.ReadExactProofs.
+From LV Require Import Base.Bytes Base.Str Base.Utf8 Base.Res Model.Response Model.ServerInfo Model.Client
+  Proofs.ResponseProofs Proofs.ClientProofs Proofs.ReadExactProofs Proofs.ServerInfoProofs.
+From Coq Require Import Strings.String.
 
 (* Soundness: whatever parse_response accepts is exactly one RFC 5321 4.2 reply - continuation
    lines `code "-" text CRLF` in order, all with the same code, then `code SP text CRLF` or the
@@ -60,9 +61,29 @@ Proof. reflexivity. Qed.
 Example C15_reply_ok_inhabited : reply_ok (mkResp (mkCode 2 5 0) [[97]; [98]]).
 Proof. repeat split; try discriminate; cbn; try lia; repeat constructor. Qed.
 
+(* EHLO keywords and AUTH mechanisms are read from exactly the lines that carry them: of the reply
+   to EHLO, the first word of the first line is the server name; a feature is recorded iff some LATER
+   line has the keyword as its first word, in any letter case; a mechanism iff some later line whose
+   first word is AUTH lists it.  Nothing else in the reply - the greeting text, a keyword in second
+   position, a line X-AUTH ... - changes what is recorded. *)
+Theorem C15_ehlo_lines_exact : forall (r : response) (i : sinfo), from_response r = Ok i ->
+  first_word r = Some (si_name i) /\
+  f_8bit i = existsb (first_is (bs "8BITMIME")) (tl (rlines r)) /\
+  f_utf8 i = existsb (first_is (bs "SMTPUTF8")) (tl (rlines r)) /\
+  f_starttls i = existsb (first_is (bs "STARTTLS")) (tl (rlines r)) /\
+  f_plain i = existsb (auth_lists (bs "PLAIN")) (tl (rlines r)) /\
+  f_login i = existsb (auth_lists (bs "LOGIN")) (tl (rlines r)) /\
+  f_xoauth2 i = existsb (auth_lists (bs "XOAUTH2")) (tl (rlines r)).
+Proof. exact from_response_exact. Qed.
+Example C15_ehlo_example :
+  from_response (mkResp (mkCode 2 5 0) [bs "mx.example STARTTLS AUTH XOAUTH2"; bs "auth plain LOGIN"; bs "StartTLS"; bs "X-AUTH XOAUTH2"; bs "SIZE 8BITMIME"])
+  = Ok (mkInfo (bs "mx.example") false false true true true false).
+Proof. vm_compute. reflexivity. Qed.
+
 Print Assumptions C15_sound.
 Print Assumptions C15_roundtrip.
 Print Assumptions C15_classes.
 Print Assumptions C15_eof_no_wait.
 Print Assumptions C15_read_only_consumes.
 Print Assumptions C15_read_exact.
+Print Assumptions C15_ehlo_lines_exact.
